@@ -10,6 +10,7 @@ import (
 	"regexp"
 	"sort"
 	"strings"
+	"sync"
 
 	"fosim/common"
 )
@@ -17,11 +18,21 @@ import (
 // ---- C07: a definition's translation depends only on itself and what it references (history search) ----
 
 type c07Extra struct {
-	Kind    string   `json:"kind"` // which transformations produced the variant
+	Kind    string   `json:"kind"` // which transformations produced the variant; "closure" for the closure rule
 	Argv    []string `json:"argv"`
 	Disk    Disk     `json:"disk"`
 	History string   `json:"history,omitempty"` // human-readable description
+	// Ref is the variant's item set in generation order in one file (absent when that is the base itself):
+	// the variant must agree with it on acceptance, whatever was permuted or re-cut.
+	RefArgv []string `json:"ref_argv,omitempty"`
+	RefDisk *Disk    `json:"ref_disk,omitempty"`
+	// Items (closure rule): the program's items with their dependencies. A rejected program must contain a
+	// definition that is rejected with nothing but what it references in front of it.
+	Items []seqItem `json:"items,omitempty"`
 }
+
+// c07LastItems hands the item list of a generated pair to the closure rule without putting it into every scenario.
+var c07LastItems sync.Map
 
 var reTmp = regexp.MustCompile(`_v[0-9]+`)
 
@@ -106,8 +117,7 @@ func c07Compare(sc *Scenario, ex *c07Extra, r0, r1 *Result) *Violation {
 		return v
 	}
 	if r1.Exit != 0 {
-		return &Violation{Class: "accept", Signature: "accept:" + ex.Kind,
-			Detail: fmt.Sprintf("the base program is accepted, the variant (%s) is rejected with exit %d: %s", ex.Kind, r1.Exit, tail(r1.Stdout+r1.Stderr, 300))}
+		return nil
 	}
 	if v := c07FileSet(sc, ex.Argv, r1); v != nil {
 		return v
@@ -152,19 +162,110 @@ func c07Variant(sc *Scenario) (*Scenario, *c07Extra) {
 
 func judgeC07(c *Ctx, sc *Scenario) *Violation {
 	vs, ex := c07Variant(sc)
+	if ex.Kind == "closure" {
+		return c07Closure(c, sc, ex)
+	}
 	base := sc.Clone()
 	base.Extra = nil
 	r0 := c.sim(c.B.FcVerif, base)
 	r1 := c.sim(c.B.FcVerif, vs)
+	var rr *Result
+	if ex.RefDisk != nil {
+		ref := sc.Clone()
+		ref.Extra = nil
+		ref.Argv = ex.RefArgv
+		ref.Disk = ex.RefDisk.Clone()
+		rr = c.sim(c.B.FcVerif, ref)
+	}
+	return c07Judge(sc, ex, r0, rr, r1)
+}
+
+// c07Judge: r0 base, rr reference (variant's item set in generation order; nil: the base is the reference),
+// r1 variant.
+func c07Judge(sc *Scenario, ex *c07Extra, r0, rr, r1 *Result) *Violation {
+	ref := rr
+	if ref == nil {
+		ref = r0
+	}
+	// same set of definitions, another order / cut: acceptance must not depend on it
+	if (ref.Exit == 0) != (r1.Exit == 0) {
+		return &Violation{Class: "accept", Signature: "accept:sameset:" + ex.Kind,
+			Detail: fmt.Sprintf("the same definitions in generation order in one file exit %d, the variant (%s) exits %d: %s | %s", ref.Exit, ex.Kind, r1.Exit,
+				tail(ref.Stdout+ref.Stderr, 200), tail(r1.Stdout+r1.Stderr, 200))}
+	}
+	if r0.Exit == 0 && ref.Exit != 0 && !strings.Contains(ex.Kind, "insert") {
+		return &Violation{Class: "accept", Signature: "accept:delete",
+			Detail: fmt.Sprintf("the base program is accepted; after deleting definitions nothing retained depends on it is rejected (exit %d): %s", ref.Exit, tail(ref.Stdout+ref.Stderr, 300))}
+	}
+	if r0.Exit != 0 || r1.Exit != 0 {
+		return nil // nothing to compare (a rejected base, or inserted definitions that are rejected on their own)
+	}
 	return c07Compare(sc, ex, r0, r1)
+}
+
+// closureOf returns the indices of item i and everything it (transitively) depends on, ascending.
+func closureOf(items []seqItem, i int) []int {
+	in := map[int]bool{i: true}
+	stack := []int{i}
+	for len(stack) > 0 {
+		x := stack[len(stack)-1]
+		stack = stack[:len(stack)-1]
+		for _, d := range items[x].Deps {
+			if !in[d] {
+				in[d] = true
+				stack = append(stack, d)
+			}
+		}
+	}
+	var out []int
+	for k := range items {
+		if in[k] {
+			out = append(out, k)
+		}
+	}
+	return out
+}
+
+func closureScenario(sc *Scenario, items []seqItem, idx []int) *Scenario {
+	var sb strings.Builder
+	sb.WriteString(genHeader)
+	for _, k := range idx {
+		sb.WriteString(items[k].Text)
+	}
+	s := &Scenario{V: 1, Property: "C07", Seed: sc.Seed, Run: sc.Run, Program: "fc", Enum: EnumSched{Mode: "identity"}, TickBudget: sc.TickBudget}
+	s.Disk.Put("pkg/pkg_all.foi", pkgAllFoi, "corpus")
+	s.Disk.Put("k/whole.fo", []byte(sb.String()), "closure")
+	s.Argv = []string{"pkg/pkg_all.foi", "k/whole.fo"}
+	return s
+}
+
+// c07Closure: the whole program (ex.Items in order) is rejected although every single definition is accepted
+// when only what it references precedes it: acceptance then depends on unrelated definitions.
+func c07Closure(c *Ctx, sc *Scenario, ex *c07Extra) *Violation {
+	all := make([]int, len(ex.Items))
+	for i := range all {
+		all[i] = i
+	}
+	whole := c.sim(c.B.FcVerif, closureScenario(sc, ex.Items, all))
+	if whole.Exit == 0 {
+		return nil
+	}
+	for i := range ex.Items {
+		r := c.sim(c.B.FcVerif, closureScenario(sc, ex.Items, closureOf(ex.Items, i)))
+		if r.Exit != 0 {
+			return nil // this definition is rejected on its own: the whole is legitimately rejected
+		}
+	}
+	return &Violation{Class: "accept", Signature: "accept:whole-rejected-parts-accepted",
+		Detail: fmt.Sprintf("a program of %d definitions is rejected (exit %d: %s) although every one of them is accepted when preceded only by what it references", len(ex.Items), whole.Exit, tail(whole.Stdout+whole.Stderr, 200))}
 }
 
 // ---- variants over a sequence of items with a dependency relation ----
 
 type seqItem struct {
-	Text string
-	Deps []int // indices (in the original sequence) this item must stay after
-	Base bool  // belongs to the base program (else: inserted)
+	Text string `json:"text"`
+	Deps []int  `json:"deps,omitempty"` // indices (in the original sequence) this item must stay after
+	Base bool   `json:"base,omitempty"` // belongs to the base program (else: inserted)
 }
 
 // topoShuffle returns a random order of the kept items that respects Deps.
@@ -237,8 +338,9 @@ func cutSequence(r *common.Rng, texts []string, header string, nfiles int, dirs 
 	}
 	idx := 0
 	var sb strings.Builder
+	style := r.Intn(8)
 	flush := func() {
-		name := fmt.Sprintf("%s/c%d.fo", dirs[idx%len(dirs)], idx)
+		name := fmt.Sprintf("%s/%s", dirs[idx%len(dirs)], fileName(style, "c", idx))
 		files[name] = []byte(header + sb.String())
 		argv = append(argv, name)
 		idx++
@@ -258,12 +360,16 @@ func cutSequence(r *common.Rng, texts []string, header string, nfiles int, dirs 
 func c07Generated(c *Ctx, r *common.Rng, run int) *Scenario {
 	o := swarmOpts(r)
 	o.Items = r.Range(2, 40)
+	if o.AndHeavy {
+		o.Items = r.Range(20, 70)
+	}
 	extra := 0
 	if r.Chance(1, 2) {
 		extra = r.Range(1, 10)
 	}
-	g := genItems(r, GenOpts{Items: o.Items + extra, UnannotatedPm: o.UnannotatedPm, Poly: o.Poly, PkgInfo: o.PkgInfo, Generic: o.Generic,
-		LocalFuncs: o.LocalFuncs, MatchHeavy: o.MatchHeavy, Layout: o.Layout}, "")
+	go2 := o
+	go2.Items = o.Items + extra
+	g := genItems(r, go2, "")
 	body := g.items[1:]
 	nBase := o.Items
 	if nBase > len(body) {
@@ -346,14 +452,61 @@ func c07Generated(c *Ctx, r *common.Rng, run int) *Scenario {
 		nfiles = r.Range(2, 8)
 		kinds = append(kinds, "recut")
 	}
+	// package_info blocks that depend on nothing may live in a .foi argument (contributes declarations, yields no file)
+	var foiText strings.Builder
+	if r.Chance(1, 3) {
+		var rest []string
+		k := 0
+		for _, i := range order {
+			if body[i].Kind == "pinfo" && len(items[i].Deps) == 0 {
+				foiText.WriteString(items[i].Text)
+			} else {
+				rest = append(rest, vtexts[k])
+			}
+			k++
+		}
+		if foiText.Len() > 0 && len(rest) > 0 {
+			vtexts = rest
+			kinds = append(kinds, "foi")
+		} else {
+			foiText.Reset()
+		}
+	}
 	vargv, vfiles := cutSequence(r, vtexts, genHeader, nfiles, []string{"v", "v/sub", "w"}[:r.Range(1, 3)], false)
 	vfiles["pkg/pkg_all.foi"] = pkgAllFoi
+	if foiText.Len() > 0 {
+		vfiles["v/decl.foi"] = []byte(foiText.String())
+		vargv = append([]string{"v/decl.foi"}, vargv...)
+	}
 	if len(kinds) == 0 {
 		kinds = []string{"same"}
 	}
 	vp := newProgram("variant", append([]string{"pkg/pkg_all.foi"}, vargv...), vfiles, "gen")
 	ex := c07Extra{Kind: strings.Join(kinds, "+"), Argv: vp.Argv, Disk: vp.Disk,
 		History: fmt.Sprintf("base %d items in %d file(s); variant order %v in %d file(s)", nBase, baseFiles, order, len(vargv))}
+	// reference: the variant's item set in generation order in one file (unless that is what the base is)
+	sameSet := true
+	for i := range keep {
+		if keep[i] != (i < nBase) {
+			sameSet = false
+		}
+	}
+	if !(sameSet && baseFiles == 1) {
+		var sb strings.Builder
+		sb.WriteString(genHeader)
+		for i := range items {
+			if keep[i] {
+				sb.WriteString(items[i].Text)
+			}
+		}
+		rd := Disk{}
+		rd.Put("pkg/pkg_all.foi", pkgAllFoi, "corpus")
+		rd.Put("r/ref.fo", []byte(sb.String()), "reference order")
+		ex.RefArgv = []string{"pkg/pkg_all.foi", "r/ref.fo"}
+		ex.RefDisk = &rd
+	}
+	// kept for the closure rule (used only when a whole program turns out to be rejected)
+	c07LastItems.Store(run, items)
 	b, _ := json.Marshal(ex)
 	sc.Extra = b
 	return sc
@@ -569,19 +722,29 @@ func c07Corpus(c *Ctx, r *common.Rng, run int, p *Program) *Scenario {
 }
 
 func shrinkC07(c *Ctx, sc *Scenario, v *Violation, judge Judge) (*Scenario, *Violation) {
-	// Shrink base and variant together by deleting, from both, the declarations with the same text.
+	// Shrink base, reference and variant together by deleting, from all, the declarations with the same text.
 	vs, ex := c07Variant(sc)
+	if ex.Kind == "closure" {
+		return sc, v
+	}
+	var refSc *Scenario
+	if ex.RefDisk != nil {
+		refSc = sc.Clone()
+		refSc.Extra = nil
+		refSc.Argv = ex.RefArgv
+		refSc.Disk = ex.RefDisk.Clone()
+	}
 	type loc struct {
-		inBase bool
+		inBase string
 		path   string
 		idx    int
 	}
 	texts := map[string][]loc{}
 	chunks := map[string][]Item{}
-	collect := func(s *Scenario, inBase bool) {
+	collect := func(s *Scenario, inBase string) {
 		for _, a := range s.Argv {
 			p := filepath.Clean(a)
-			key := fmt.Sprint(inBase) + p
+			key := inBase + "|" + p
 			if _, done := chunks[key]; done || !strings.HasSuffix(p, ".fo") {
 				continue
 			}
@@ -596,8 +759,11 @@ func shrinkC07(c *Ctx, sc *Scenario, v *Violation, judge Judge) (*Scenario, *Vio
 			}
 		}
 	}
-	collect(sc, true)
-	collect(vs, false)
+	collect(sc, "base")
+	collect(vs, "variant")
+	if refSc != nil {
+		collect(refSc, "ref")
+	}
 	keys := sortedKeys(texts)
 	build := func(keepKeys []int) *Scenario {
 		drop := map[string]bool{}
@@ -612,9 +778,12 @@ func shrinkC07(c *Ctx, sc *Scenario, v *Violation, judge Judge) (*Scenario, *Vio
 		}
 		nb := sc.Clone()
 		nv := vs.Clone()
+		var nr *Scenario
+		if refSc != nil {
+			nr = refSc.Clone()
+		}
 		for key, its := range chunks {
-			inBase := strings.HasPrefix(key, "true")
-			p := strings.TrimPrefix(strings.TrimPrefix(key, "true"), "false")
+			which, p, _ := strings.Cut(key, "|")
 			var sb strings.Builder
 			for _, it := range its {
 				if !it.isHeader() && drop[it.Text] {
@@ -622,13 +791,21 @@ func shrinkC07(c *Ctx, sc *Scenario, v *Violation, judge Judge) (*Scenario, *Vio
 				}
 				sb.WriteString(it.Text)
 			}
-			if inBase {
+			switch which {
+			case "base":
 				nb.Disk.Put(p, []byte(sb.String()), "shrunk")
-			} else {
+			case "variant":
 				nv.Disk.Put(p, []byte(sb.String()), "shrunk")
+			case "ref":
+				nr.Disk.Put(p, []byte(sb.String()), "shrunk")
 			}
 		}
 		nex := c07Extra{Kind: ex.Kind, Argv: nv.Argv, Disk: nv.Disk, History: ex.History + " (shrunk)"}
+		if nr != nil {
+			nex.RefArgv = nr.Argv
+			d := nr.Disk
+			nex.RefDisk = &d
+		}
 		b, _ := json.Marshal(nex)
 		nb.Extra = b
 		return nb
@@ -668,12 +845,20 @@ func checkC07(tier string) {
 		base := sc.Clone()
 		base.Extra = nil
 		r0 := c.sim(c.B.FcVerif, base)
-		if r0.Exit != 0 {
-			c.count("base_rejected(skipped)", 1)
-			return outcome{sc, nil}
-		}
-		c.count("base_accepted", 1)
 		r1 := c.sim(c.B.FcVerif, vs)
+		var rr *Result
+		if ex.RefDisk != nil {
+			ref := sc.Clone()
+			ref.Extra = nil
+			ref.Argv = ex.RefArgv
+			ref.Disk = ex.RefDisk.Clone()
+			rr = c.sim(c.B.FcVerif, ref)
+		}
+		if r0.Exit != 0 {
+			c.count("base_rejected", 1)
+		} else {
+			c.count("base_accepted", 1)
+		}
 		c.count("variant_kind:"+ex.Kind, 1)
 		if ex.Kind != "same" && c.markDistinct("pair:"+base.Hash()+"|"+vs.Hash()) {
 			c.count("distinct_nontrivial", 1)
@@ -682,7 +867,34 @@ func checkC07(tier string) {
 			c.addSample(map[string]any{"base_argv": sc.Argv, "variant_argv": ex.Argv, "kind": ex.Kind, "history": clip(ex.History, 300),
 				"base_exit": r0.Exit, "variant_exit": r1.Exit, "decls_base": countDecls(r0)}, 8)
 		}
-		return outcome{sc, c07Compare(sc, ex, r0, r1)}
+		v := c07Judge(sc, ex, r0, rr, r1)
+		// closure rule: a rejected whole must contain a definition that is rejected with only what it references
+		if v == nil {
+			itemsAny, _ := c07LastItems.Load(i)
+			items, _ := itemsAny.([]seqItem)
+			rejected := [][]seqItem{}
+			if r0.Exit != 0 && items != nil {
+				var bi []seqItem
+				for _, it := range items {
+					if it.Base {
+						bi = append(bi, it)
+					}
+				}
+				rejected = append(rejected, bi)
+			}
+			for _, its := range rejected {
+				c.count("closure_rule_applied", 1)
+				csc := sc.Clone()
+				b, _ := json.Marshal(c07Extra{Kind: "closure", Items: its})
+				csc.Extra = b
+				if cv := judgeC07(c, csc); cv != nil {
+					c07LastItems.Delete(i)
+					return outcome{csc, cv}
+				}
+			}
+		}
+		c07LastItems.Delete(i)
+		return outcome{sc, v}
 	}, nil)
 
 	c.phase("repository corpus variants")
@@ -709,7 +921,7 @@ func checkC07(tier string) {
 		if i < 4 {
 			c.addSample(map[string]any{"base": p.Name, "variant_argv": ex.Argv, "kind": ex.Kind, "base_exit": r0.Exit, "variant_exit": r1.Exit, "decls_base": countDecls(r0)}, 12)
 		}
-		return outcome{sc, c07Compare(sc, ex, r0, r1)}
+		return outcome{sc, c07Judge(sc, ex, r0, nil, r1)}
 	}, nil)
 
 	c.phase("reporting")
